@@ -49,14 +49,17 @@ Defaults   == << [k |-> "none", v |-> ""], [k |-> "none", v |-> ""], [k |-> "int
                  [k |-> "float", v |-> "1.5"], [k |-> "float", v |-> "0.0"], [k |-> "bool", v |-> "true"],
                  [k |-> "bool", v |-> "false"], [k |-> "null", v |-> ""], [k |-> "str", v |-> "hello"],
                  [k |-> "str", v |-> "it's"], [k |-> "str", v |-> ""], [k |-> "expr", v |-> "now()"],
-                 [k |-> "expr", v |-> "a + 'b'"] >>
+                 [k |-> "expr", v |-> "a + 'b'"],
+                 \* a quoted default keeps its kind whatever it spells; an expression may itself begin and end with a parenthesis
+                 [k |-> "str", v |-> "12"], [k |-> "str", v |-> "00501"], [k |-> "str", v |-> "1.50"],
+                 [k |-> "expr", v |-> "(a) * (b)"], [k |-> "expr", v |-> "(now())"] >>
 Colors     == <<"", "", "#abc", "#A1B2C3", "#fff000">>
 PropKeys   == <<"owner", "pii", "k_3", "my key", "notes_key">>
 RefKinds   == <<">", "<", "-", "<>">>
 Actions    == <<"", "", "", "cascade", "no action", "restrict", "set null", "set default">>
 IdxTypes   == <<"", "", "btree", "hash", "gin", "gist", "brin", "spgist">>
 IdxNames   == <<"", "", "idx_1", "my index", "it's">>
-Exprs      == <<"lower(name)", "id * 2", "now()">>
+Exprs      == <<"lower(name)", "id * 2", "now()", "(a) || (b)", "(lower(name))">>
 GroupNames == <<"g1", "my group", "TableGroup">>
 StickyNames == <<"n1", "reminder_2", "note">>
 ProjNames  == <<"proj", "my project", "Project">>
@@ -79,7 +82,8 @@ TSchema(seed, t) == Pick(seed, K(t, 0, 2), SchemaPool)
 TName(seed, t)   == IF t > 1 /\ Coin(seed, K(t, 0, 9), 25) /\ SchemaOf(TSchema(seed, t)) # SchemaOf(TSchema(seed, t - 1))
                     THEN BName(seed, t - 1) ELSE BName(seed, t)
 TAlias(seed, t)  == IF Coin(seed, K(t, 0, 3), 40)
-                    THEN IF Coin(seed, K(t, 0, 11), 15)
+                    THEN IF Coin(seed, K(t, 0, 12), 12) /\ SchemaOf(TSchema(seed, t)) # "public" THEN TName(seed, t)
+                    ELSE IF Coin(seed, K(t, 0, 11), 15)
                          THEN BName(seed, (t % NTables(seed)) + 1)
                          ELSE AliasPool[((Off(seed, 4, Len(AliasPool)) + t) % Len(AliasPool)) + 1]
                     ELSE ""
@@ -110,9 +114,10 @@ RandType(seed, t, c) ==
         name |-> EName(seed, e), suffix |-> ""]
   ELSE Pick(seed, K(t, c, 4), PlainTypes)
 
+PropValues == Texts \o <<"  padded", " x ", "">>       \* values are kept exactly (notes are normalised: separate pool)
 RandProps(seed, key) ==
   LET n == IF Coin(seed, key, 25) THEN Num(seed, key + 1, 1, 2) ELSE 0 IN
-  [i \in 1..n |-> <<PropKeys[((Off(seed, key + 2, Len(PropKeys)) + i) % Len(PropKeys)) + 1], Pick(seed, key + 2 + i, Texts)>>]
+  [i \in 1..n |-> <<PropKeys[((Off(seed, key + 2, Len(PropKeys)) + i) % Len(PropKeys)) + 1], Pick(seed, key + 2 + i, PropValues)>>]
 
 RandCol(seed, t, c, withProps) ==
   LET nr == IF Coin(seed, K(t, c, 5), 30) THEN Num(seed, K(t, c, 6), 1, 2) ELSE 0 IN
@@ -173,7 +178,7 @@ RandGroup(seed, g) ==
       items |-> [i \in 1..n |-> LET a == Addr(seed, K(30 + g, i, 3), it(i)) IN [schema |-> a.schema, table |-> a.table]],
       note |-> Maybe(seed, K(30 + g, 0, 4), 30, Texts), color |-> Pick(seed, K(30 + g, 0, 6), Colors), comment |-> ""]
 
-RandSticky(seed, n) == [d |-> "sticky", name |-> StickyNames[n], text |-> Pick(seed, K(34 + n, 0, 1), Texts)]
+RandSticky(seed, n) == [d |-> "sticky", name |-> StickyNames[n], text |-> Pick(seed, K(34 + n, 0, 1), Texts \o <<"", "">>)]
 
 RandProject(seed) ==
   LET n == Num(seed, K(38, 0, 1), 0, 2) IN
@@ -217,7 +222,7 @@ RandDoc(seed) == RandDocP(seed, FALSE)
 (* is written (above or trailing, // or block) is a matter of form.        *)
 (***************************************************************************)
 CommentTexts == <<"plain comment", "it's \"quoted\"", "{ braces } [x] (y)", "Table x {", "'); DROP TABLE t; --",
-                  "a * b / c", "note: 'x'", "~u00fc~ber ~u4e2d~", "two\nlines", "Ref: a.b > c.d\nEnum e {\n}", "// nested", "#1">>
+                  "a * b / c", "note: 'x'", "~u00fc~ber ~u4e2d~", "path C:\\data\\", "two\nlines", "Ref: a.b > c.d\nEnum e {\n}", "// nested", "#1">>
 OneLineComments == SelectSeq(CommentTexts, LAMBDA t : t \notin {"two\nlines", "Ref: a.b > c.d\nEnum e {\n}"})
 MaybeC(seed, key, pool) == IF Coin(seed, key, 45) THEN Pick(seed, key + 1, pool) ELSE ""
 
